@@ -10,6 +10,7 @@ let () =
     | "constraints" -> H_constraints.constraints_case
     | "format" -> H_format.format_case
     | "vector" -> H_vector.vector_case
+    | "values" -> H_values.values_case
     | _ -> failwith ("unknown model " ^ sub) in
   (try
     while true do
